@@ -292,6 +292,10 @@ func (s *Spec) emitTypeDecl(b *strings.Builder, t *Type, pkg string) {
 		fmt.Fprintf(b, "func %s(x %s) uint64 { return x.%s }\n\n", h, ex, t.Name)
 	case KBasic:
 		switch t.Name {
+		case "any":
+			// element type of ...any parameters: carries a probe.V
+			fmt.Fprintf(b, "func %s(h uint64) any { return probe.V{H: h} }\n", mk)
+			fmt.Fprintf(b, "func %s(x any) uint64 {\n\tif v, ok := x.(probe.V); ok {\n\t\treturn v.H\n\t}\n\treturn 0xBAD0BAD0\n}\n\n", h)
 		case "string":
 			fmt.Fprintf(b, "func %s(h uint64) string { return probe.HexOf(h) }\n", mk)
 			fmt.Fprintf(b, "func %s(x string) uint64 { return probe.StrH(x) }\n\n", h)
